@@ -20,7 +20,7 @@ REG = Registry(
     'C01',
     rule=('R1: neutral size histories of 1-4 epochs (nu log-uniform in [0.05,20], epoch lengths log-uniform in [0.005,3] capped so the '
           'integration stays within a step budget), ancestral size 1 or generated, sample sizes 2-30, grid lists [g,g+10,g+20] with g >= n, '
-          'linear/log extrapolation, constant / function-valued nu, library models where the shape matches; R2-R4: (gamma,h,nu,theta0,beta) '
+          'linear/log extrapolation, constant / function-valued nu / a geometric staircase of 6-40 steps handed over as one function of time in one call, library models where the shape matches; R2-R4: (gamma,h,nu,theta0,beta) '
           'with gamma over [-1e6,1e3] log-spaced in |gamma| plus the regime-switch points; R5/R6: equilibria integrated further, time-step '
           'halving. Non-trivial = >=2 epochs with a size ratio >2, or gamma != 0, or beta != 1. Distinct by rounded parameter tuple.'),
     assumptions=['R1 oracle: exact coalescent expectation (matrix exponential of the lineage-death process), harness/refs/coalescent.py',
@@ -51,7 +51,18 @@ def history_case(draw, max_steps=40000):
         nus.append(nu)
         Ts.append(T)
     g = draw(st.integers(max(n, 5), n + 39))     # a grid needs at least a few points; otherwise 'at or above the sample size'
-    return dict(n=n, nus=nus, Ts=Ts, g=g, log=draw(st.booleans()), as_func=draw(st.booleans()),
+    as_func = draw(st.sampled_from([False, True, 'step']))
+    if as_func == 'step':
+        # a staircase (geometric, K small steps) between two sizes, handed over as ONE function of time in ONE call: the form in
+        # which a user passes a finely stepped history. (An abrupt change passed this way is not held to the 1.5% clause: the one
+        # step that straddles the change is sized for the old epoch, an O(dt) shift of the boundary that dadi cannot know about;
+        # measured up to 2.7% for a 100-fold drop.)
+        K = draw(st.integers(6, 40))
+        a, b = nus[0], math.exp(draw(st.floats(math.log(0.05), math.log(20.0))))
+        Ttot = min(math.exp(draw(st.floats(math.log(0.05), math.log(1.0)))), budget * 4 * min(a, b) * tau)
+        nus = [a * (b / a) ** (k / (K - 1.0)) for k in range(K)]
+        Ts = [Ttot / K] * K
+    return dict(n=n, nus=nus, Ts=Ts, g=g, log=draw(st.booleans()), as_func=as_func,
                 theta0=draw(st.floats(0.1, 100.0)), beta=draw(st.sampled_from([1.0, 1.0, 0.5, 3.0])),
                 nu_anc=draw(st.sampled_from([1.0, 1.0, 0.5, 2.0])), lib=draw(st.booleans()))
 
@@ -70,6 +81,20 @@ def model_func(c):
             return (lambda params, ns, pts: c['theta0'] * dadi.Demographics1D.two_epoch((nus[0], Ts[0]), ns, pts)), 'two_epoch'
         if len(nus) == 2:
             return (lambda params, ns, pts: c['theta0'] * dadi.Demographics1D.three_epoch((nus[0], nus[1], Ts[0], Ts[1]), ns, pts)), 'three_epoch'
+
+    if c['as_func'] == 'step' and len(nus) >= 2:
+        # the whole history handed over as ONE function of time in ONE call: nu(t) is the step function itself
+        ends = np.cumsum(Ts)
+
+        def nu_of_t(t):
+            return nus[min(int(np.searchsorted(ends, t, side='left')), len(nus) - 1)]
+
+        def fstep(params, ns, pts):
+            xx = Numerics.default_grid(pts)
+            phi = PhiManip.phi_1D(xx, nu=c['nu_anc'], theta0=c['theta0'], beta=c['beta'])
+            phi = Integration.one_pop(phi, xx, float(ends[-1]), nu=nu_of_t, theta0=c['theta0'], beta=c['beta'])
+            return dadi.Spectrum.from_phi(phi, ns, (xx,))
+        return fstep, 'one step function'
 
     def f(params, ns, pts):
         xx = Numerics.default_grid(pts)
@@ -90,7 +115,7 @@ def run_model(c, pts_l, tau):
     return np.asarray(np.ma.getdata(fs), float), kind
 
 
-@REG.relation('R1-coalescent', strategy=history_case, quick=(64, 16), thorough=(1600, 16))
+@REG.relation('R1-coalescent', strategy=history_case, quick=(160, 16), thorough=(2400, 16))
 def r1(c, rec):
     """Neutral piecewise-constant histories: every polymorphic entry within 1.5% of the exact coalescent expectation at a tenth of
     the default time step on refined grids, and refinement does not make things worse."""
@@ -105,7 +130,7 @@ def r1(c, rec):
     g = c['g']
     gp = max(g, n + 10, 60)
     fine, kind = run_model(c, [gp, gp + 10, gp + 20], TAU0 / 10)
-    rec.case(c, nt, ['epochs=%d' % len(c['nus']), kind, 'log' if c['log'] else 'linear', 'func-nu' if c['as_func'] else 'const-nu'])
+    rec.case(c, nt, ['epochs=%d' % len(c['nus']), kind, 'log' if c['log'] else 'linear', {False: 'const-nu', True: 'func-nu', 'step': 'step-func-nu'}[c['as_func']]])
     inner = slice(1, n)
     if n < 2 or inner.stop <= inner.start:
         return
